@@ -4,11 +4,16 @@ package sm2_test
 
 import (
 	"bytes"
+	"errors"
 	"fmt"
 	"io"
+	"math/big"
 
+	"github.com/bilibili/smgo/sm2"
 	"pgregory.net/rapid"
 	"verif.local/ref/gen"
+	"verif.local/ref/sm2gen"
+	"verif.local/ref/stats"
 )
 
 // streamReader serves a fixed byte stream, full reads, and records what was asked.
@@ -96,4 +101,126 @@ func recordLayout(t *rapid.T, label string, fields ...[]byte) ([][]byte, func() 
 		}
 		return "changed"
 	}
+}
+
+
+// deadReader delivers n bytes and then fails.
+type deadReader struct {
+	n   int
+	err error
+}
+
+func (d *deadReader) Read(p []byte) (int, error) {
+	if d.n <= 0 {
+		return 0, d.err
+	}
+	if len(p) > d.n {
+		p = p[:d.n]
+	}
+	for i := range p {
+		p[i] = 0x5a
+	}
+	d.n -= len(p)
+	return len(p), nil
+}
+
+// foreignCalls makes 0..3 calls of OTHER entry points — valid, rejected and failing ones, with shaped inputs — before the judged call
+// of a case. Nothing is judged here (each entry point has its own property); what is exercised is state that one API function may
+// leave behind for another: caches, pooled scratch buffers not cleaned on an error path, shared constants or table entries that an
+// accumulator came to alias. The judged call that follows must not be affected. rec labels are returned for the class statistics.
+func foreignCalls(t *rapid.T, rec *stats.Recorder, label string) {
+	n := gen.Uniform(t, label+".n", 0, 3)
+	if gen.Bool(t, label+".none") {
+		n = 0
+	}
+	kinds := ""
+	r := gen.Rand(t, label+".seed")
+	for i := 0; i < n; i++ {
+		d := new(big.Int).SetBytes(gen.RandBytes(r, 40))
+		d.Mod(d, sm2gen.NM2).Add(d, big.NewInt(1))
+		px, py, _ := sm2gen.Pub(d)
+		denc := gen.Pad32(d)
+		e := gen.RandBytes(r, 32)
+		kind := gen.Pick(t, label+".kind", "verify-tiny-t", "verify-tiny-t", "verify-forged-tiny-t", "sign-dead-reader", "genkey-dead-reader", "verify-long-id",
+			"sign-long-id", "derive-bad", "sign-short-key", "sign-bad-key", "verify-malformed", "verify-resplit", "oncurve-off")
+		kinds += kind + ","
+		func() {
+			defer func() { recover() }() // a panic here is some other property's business
+			switch kind {
+			case "verify-tiny-t":
+				// a VALID signature whose t = (r+s) mod n is tiny while s is ordinary: the double-scalar routine starts with a base-table point
+				tt := big.NewInt(int64(gen.Uniform(t, label+".t", 1, 1<<13)))
+				sv := new(big.Int).SetBytes(gen.RandBytes(r, 40))
+				sv.Mod(sv, sm2gen.NM1).Add(sv, big.NewInt(1))
+				if ev, _, rv, ok := sm2gen.SolveSig(d, sv, tt); ok {
+					sm2.VerifyHashed(px, py, ev, gen.Pad32(rv), gen.Pad32(sv))
+				}
+			case "verify-forged-tiny-t":
+				sv := new(big.Int).SetBytes(gen.RandBytes(r, 40))
+				sv.Mod(sv, sm2gen.NM1).Add(sv, big.NewInt(1))
+				rv := new(big.Int).Sub(big.NewInt(int64(gen.Uniform(t, label+".t", 1, 300))), sv)
+				rv.Mod(rv, gen.N)
+				sm2.VerifyHashed(px, py, e, gen.Pad32(rv), gen.Pad32(sv))
+			case "sign-dead-reader":
+				sm2.SignHashed(&deadReader{gen.Uniform(t, label+".dead", 0, 40), errors.New("entropy source failed")}, denc, e)
+			case "genkey-dead-reader":
+				sm2.GenerateKey(&deadReader{gen.Uniform(t, label+".dead", 0, 40), io.ErrUnexpectedEOF})
+			case "verify-long-id":
+				sm2.Verify(make([]byte, 8192), px, py, e, e, e)
+			case "sign-long-id":
+				sm2.Sign(make([]byte, 9000), px, py, newStream(gen.RandBytes(r, 64)), denc, e)
+			case "derive-bad":
+				sm2.DerivePublic(make([]byte, 32))
+				sm2.DerivePublic(gen.Pad32(gen.N))
+			case "sign-short-key":
+				k := gen.Uniform(t, label+".klen", 1, 31)
+				st := gen.RandBytes(r, 64)
+				st[0] &= 0x7f
+				sm2.SignHashed(newStream(st), denc[32-k:], e)
+			case "sign-bad-key":
+				sm2.SignHashed(newStream(gen.RandBytes(r, 64)), gen.Pad32(gen.N), e)
+				sm2.SignHashed(newStream(gen.RandBytes(r, 64)), make([]byte, 32), e)
+			case "verify-malformed":
+				sm2.VerifyHashed(px[:31], py, e, e, e)
+				sm2.VerifyHashed(px, py, e, e[:5], e)
+				sm2.VerifyHashed(nil, nil, nil, nil, nil)
+			case "verify-resplit":
+				// the same bytes cut at different field boundaries
+				id := gen.RandBytes(r, gen.Uniform(t, label+".idlen", 1, 20))
+				sm2.Verify(append(append([]byte(nil), id...), px[0]), px[1:], py, e, e, e)
+				sm2.ZA(id[:len(id)-1], append([]byte{id[len(id)-1]}, px...), py)
+				sm2.ZA(id, px, py)
+			case "oncurve-off":
+				sm2.CheckOnCurve(px, px)
+				sm2.CheckOnCurve(gen.Pad32(gen.P), py)
+			}
+		}()
+	}
+	if kinds == "" {
+		rec.Tally("foreign-calls-before:none")
+	} else {
+		rec.Tally("foreign-calls-before:some")
+	}
+}
+
+
+// resplit presents, before the judged call, THE SAME BYTES cut at different field boundaries (id one byte longer and the key one
+// byte shorter, and the other way round) to ZA/Verify: anything keyed by the concatenation of the fields instead of the fields
+// themselves confuses the two records. The calls are rejected (wrong key length); nothing is judged here.
+func resplit(t *rapid.T, rec *stats.Recorder, label string, id, px, py []byte) {
+	if len(px) != 32 || gen.Uniform(t, label+".resplit", 0, 2) != 0 {
+		return
+	}
+	rec.Tally("resplit-before:yes")
+	func() {
+		defer func() { recover() }()
+		dummy := make([]byte, 32)
+		sm2.Verify(append(append([]byte(nil), id...), px[0]), px[1:], py, dummy, dummy, dummy)
+		sm2.ZA(append(append([]byte(nil), id...), px[0]), px[1:], py)
+		if len(id) > 0 {
+			sm2.ZA(id[:len(id)-1], append([]byte{id[len(id)-1]}, px...), py)
+			sm2.Verify(id[:len(id)-1], append([]byte{id[len(id)-1]}, px...), py, dummy, dummy, dummy)
+		}
+		sm2.ZA(append(append(append([]byte(nil), id...), px...), py[:1]...), py[1:], py)
+	}()
 }
